@@ -120,6 +120,9 @@ def chunkAt (W : World E L) (T : Tables E) (c : Ctx E) (e : E) (payload : Option
       | .ok none => .ok none
       | .ok (some ch) => .ok (validChunk T e ch)
 
+/-- 439-441 -/
+def earlyNext (thr r : F32) (early : Nat) : Nat := if Fl.ge r thr then early + 1 else early
+
 /-- 402-445 -/
 def chunkLoop (W : World E L) (T : Tables E) (c : Ctx E) (e : E) (payload : Option Text) (seqLen maxGaveUp : Nat) :
     List Nat → ChunkAcc → M ChunkAcc
@@ -132,10 +135,12 @@ def chunkLoop (W : World E L) (T : Tables E) (c : Ctx E) (e : E) (payload : Opti
       match W.mess t c.thr with
       | .error s => .error s
       | .ok r =>
-        let early' := if Fl.ge r c.thr then acc.early + 1 else acc.early
-        let acc' : ChunkAcc := { chunks := acc.chunks ++ [t], ratios := acc.ratios ++ [r],
-                                 early := early', lazyHard := acc.lazyHard }
-        if maxGaveUp ≤ early' then .ok acc' else chunkLoop W T c e payload seqLen maxGaveUp offs acc'
+        if maxGaveUp ≤ earlyNext c.thr r acc.early then
+          .ok { chunks := acc.chunks ++ [t], ratios := acc.ratios ++ [r],
+                early := earlyNext c.thr r acc.early, lazyHard := acc.lazyHard }
+        else chunkLoop W T c e payload seqLen maxGaveUp offs
+          { chunks := acc.chunks ++ [t], ratios := acc.ratios ++ [r],
+            early := earlyNext c.thr r acc.early, lazyHard := acc.lazyHard }
 
 /-- 470-473 -/
 def meanRatio (ratios : List F32) : F32 :=
